@@ -7,6 +7,15 @@ from mirsym.interp import Program
 from mirsym.setup import program as base_program
 
 
+def enum_variants(src, keep_raw=False):
+    """variant names of the generated `pub enum Rule { .. }` (doc attributes may contain commas and braces)"""
+    src = re.sub(r'#\s*\[\s*doc\s*=\s*"(?:[^"\\]|\\.)*"\s*\]', "", src)
+    m = re.search(r"pub enum Rule \{([^}]*)\}", src)
+    vs = [re.sub(r"#\s*\[[^\]]*\]", "", v).strip() for v in m.group(1).split(",")]
+    vs = [v for v in vs if v]
+    return vs if keep_raw else [v.replace("r#", "") for v in vs]
+
+
 def make_driver(grammars, extras=False, tag="gen"):
     """grammars: list of texts -> (crate dir, mir path, list of ok flags). One module g<i> / struct G<i> per grammar,
     each module on its own source line so that closure spans are unique."""
@@ -26,8 +35,7 @@ def make_driver(grammars, extras=False, tag="gen"):
     arms = []
     for i, (r, g) in enumerate(zip(reps, grammars)):
         if not r.startswith("OK "): continue
-        m = re.search(r"pub enum Rule \{([^}]*)\}", bytes.fromhex(r[3:]).decode())
-        vs = [re.sub(r"#\s*\[[^\]]*\]", "", v).strip() for v in m.group(1).split(",")]
+        vs = enum_variants(bytes.fromhex(r[3:]).decode(), keep_raw=True)
         vs = [v for v in vs if v]
         rarms = " ".join(f'"{v.replace("r#", "")}" => g{i}::Rule::{v},' for v in vs)
         arms.append(f'{i} => {{ let r = match rule {{ {rarms} _ => return "NORULE".into() }}; fmt(<g{i}::G{i} as Parser<g{i}::Rule>>::parse(r, input)) }}')
@@ -148,8 +156,7 @@ def load(grammars, extras=False, tag="gen", base_crates=("pest",)):
     for i, ok in enumerate(oks):
         if not ok: continue
         line = next(l for l in src if l.startswith(f"pub mod g{i} "))
-        m = re.search(r"pub enum Rule \{([^}]*)\}", line)
-        vs = [re.sub(r"#\s*\[[^\]]*\]", "", v).strip().replace("r#", "") for v in m.group(1).split(",")]
+        vs = enum_variants(line)
         vs = [v for v in vs if v]
         P.variants[f"g{i}::Rule"] = vs
         if len(oks) == 1: P.variants["Rule"] = vs
